@@ -18,6 +18,7 @@
    below 2^53, where exact and float64 comparison coincide; see notes/C08.md. *)
 From Coq Require Import List ZArith Bool String Ascii.
 From GZ Require Import C08.Model C08.Spec C08.Proofs C08.ProofsB.
+From GZ Require Import C08.KModel C08.KSpec C08.KProofs C08.KProofsB C08.KProofsC.
 Import ListNotations.
 Open Scope Z_scope.
 Open Scope string_scope.
@@ -179,3 +180,225 @@ Example ex_sequence :
   run_requests fixed [mkReq jcfg ex_fs (ex_doc "100"); mkReq jcfg ex_fs (Some (JObj [("m", JObj [])]))] =
   [Err ERange; Ok (VStruct [VInt 0; VInt 0; VPtr (VStr "x"); VMap []])].
 Proof. vm_compute. reflexivity. Qed.
+
+(* ================================================================== key look-up semantics
+
+   Everything above reads a field with the key as one name.  go-zero has two meanings for a key
+   text: the parameter of that name (opaque keys: form and path parameters) and the member at the
+   end of the dotted path (chained keys: json / yaml / toml bodies, conf, UnmarshalKey, headers).
+   KModel.v carries the meaning in the unmarshaller's configuration ([kcfg], a segmenter);
+   [decodeK] / [meetsK] are the vocabulary above with "supplied" read through [getv].
+
+   The theorems quantify over every [kc : kcfg] — every unmarshaller configuration AND every
+   segmenter, so in particular over the four unmarshallers of rest/httpx and mapping
+   ([kc_json], [kc_header], [kc_form], [kc_path]) — every struct type of the deep embedding
+   (embedded structs, maps, slices, pointers, nested structs) and every document. *)
+
+Theorem keyed_accepts_iff_welltyped_and_constraints_met : forall kc fs d v,
+  unmarshalK kc fs d = Ok v <-> decodeK kc fs d = Some v /\ meetsK kc fs d = true.
+Proof. exact unmarshalK_iff. Qed.
+Print Assumptions keyed_accepts_iff_welltyped_and_constraints_met.
+
+Theorem keyed_accept_sound : forall kc fs d v,
+  unmarshalK kc fs d = Ok v -> meetsK kc fs d = true.
+Proof. exact acceptK_sound_lemma. Qed.
+Print Assumptions keyed_accept_sound.
+
+Theorem keyed_accept_exact : forall kc fs d v,
+  unmarshalK kc fs d = Ok v -> decodeK kc fs d = Some v.
+Proof. exact acceptK_exact_lemma. Qed.
+Print Assumptions keyed_accept_exact.
+
+Theorem keyed_accept_complete : forall kc fs d v,
+  decodeK kc fs d = Some v -> meetsK kc fs d = true -> unmarshalK kc fs d = Ok v.
+Proof. exact acceptK_complete_lemma. Qed.
+Print Assumptions keyed_accept_complete.
+
+Theorem keyed_total : forall kc fs d, unmarshalK kc fs d <> Panic.
+Proof. exact unmarshalK_no_panic. Qed.
+Print Assumptions keyed_total.
+
+(* what "supplied" means per kind *)
+
+(* opaque keys: the entry of that name, whatever characters the key contains *)
+Theorem opaque_key_is_the_parameter_name : forall cfg env key o,
+  getv (mkK cfg seg_opaque) env key o = lookup key o.
+Proof. exact getv_opaque. Qed.
+Print Assumptions opaque_key_is_the_parameter_name.
+
+(* chained keys: a non-empty key without a dot is one segment, so it is the entry of that name too *)
+Theorem simple_key_is_one_segment : forall key,
+  no_dot key = true -> String.eqb key "" = false -> seg_dotted key = [key].
+Proof. exact seg_dotted_simple. Qed.
+Print Assumptions simple_key_is_one_segment.
+
+(* chained keys, two segments: the member of the nested object *)
+Theorem chained_key_is_the_nested_member : forall kc env key k0 k1 o vm v,
+  k_seg kc key = [k0; k1] -> lookup k0 o = Some (JObj vm) -> lookup k1 vm = Some v ->
+  (forall m, v <> JObj m) -> getv kc env key o = Some v.
+Proof. exact getv_nested. Qed.
+Print Assumptions chained_key_is_the_nested_member.
+
+(* ... and never an entry whose name is the whole dotted text when the first segment is absent *)
+Theorem chained_key_needs_its_first_segment : forall kc env key k0 ks o,
+  k_seg kc key = k0 :: ks -> lookup k0 o = None -> getv kc env key o = None.
+Proof. exact getv_first_segment_absent. Qed.
+Print Assumptions chained_key_needs_its_first_segment.
+
+(* on keys that are their own single segment (and not "-") this is the unmarshaller of Model.v,
+   about which the theorems of the first part (and C17) speak *)
+Theorem keyed_model_extends_plain_model : forall kc fs d,
+  plain_fields kc fs = true -> unmarshalK kc fs d = unmarshal fixed (k_cfg kc) fs d.
+Proof. exact unmarshalK_plain. Qed.
+Print Assumptions keyed_model_extends_plain_model.
+
+(* one field, at ANY depth: [reach kc [] fs ob env' fs' ob'] = the struct object ob' of type fs' is
+   reached from the top-level object through supplied struct-typed fields, struct elements of
+   supplied slices and struct values of supplied maps (behind any pointers) *)
+
+Theorem every_field_everywhere_meets_its_constraints : forall kc fs ob v env' fs' ob' key o t,
+  unmarshalK kc fs (Some (JObj ob)) = Ok v ->
+  reach kc [] fs ob env' fs' ob' -> field_in key o t fs' ->
+  field_condK kc env' key o t ob' = true.
+Proof. exact field_everywhere_lemma. Qed.
+Print Assumptions every_field_everywhere_meets_its_constraints.
+
+Theorem keyed_required_scalar_was_supplied : forall kc fs ob v env' fs' ob' key o t k,
+  unmarshalK kc fs (Some (JObj ob)) = Ok v ->
+  reach kc [] fs ob env' fs' ob' -> field_in key o t fs' -> ignored key = false ->
+  scalar_kind t = Some k -> opt_default o = None -> declared_optional o ob' = false ->
+  exists x, field_inputK kc env' t key ob' = Some x /\ x <> JNull.
+Proof. exact requiredK_supplied_lemma. Qed.
+Print Assumptions keyed_required_scalar_was_supplied.
+
+Theorem keyed_supplied_number_in_range : forall kc fs ob v env' fs' ob' key o t k x r,
+  unmarshalK kc fs (Some (JObj ob)) = Ok v ->
+  reach kc [] fs ob env' fs' ob' -> field_in key o t fs' -> ignored key = false ->
+  scalar_kind t = Some k ->
+  field_inputK kc env' t key ob' = Some x -> x <> JNull -> opt_range o = Some r ->
+  exists d, supplied_num (reads_strings (k_cfg kc) o) k x = Some (FDec d) /\
+            match r_l r with None => True | Some l => if r_li r then dec_leb l d = true else dec_ltb l d = true end /\
+            match r_r r with None => True | Some h => if r_ri r then dec_leb d h = true else dec_ltb d h = true end.
+Proof. exact suppliedK_in_range_lemma. Qed.
+Print Assumptions keyed_supplied_number_in_range.
+
+Theorem keyed_supplied_value_among_options : forall kc fs ob v env' fs' ob' key o t k x,
+  unmarshalK kc fs (Some (JObj ob)) = Ok v ->
+  reach kc [] fs ob env' fs' ob' -> field_in key o t fs' -> ignored key = false ->
+  scalar_kind t = Some k ->
+  field_inputK kc env' t key ob' = Some x -> x <> JNull -> opt_options o <> [] ->
+  exists s, supplied_text x = Some s /\ In s (opt_options o).
+Proof. exact suppliedK_in_options_lemma. Qed.
+Print Assumptions keyed_supplied_value_among_options.
+
+Theorem keyed_dependency_respected : forall kc fs ob v env' fs' ob' key o t,
+  unmarshalK kc fs (Some (JObj ob)) = Ok v ->
+  reach kc [] fs ob env' fs' ob' -> field_in key o t fs' -> dep_respected key o ob' = true.
+Proof. exact dependencyK_respected_lemma. Qed.
+Print Assumptions keyed_dependency_respected.
+
+(* calls: one entry point = its passes in order (httpx.Parse: path, form, header, json body),
+   then the request validator *)
+
+Theorem call_accepted_iff_every_pass_fine_and_validator_agrees : forall c vs,
+  serve_call c = CAccepted vs <-> Forall2 pass_ok (c_passes c) vs /\ c_validator c <> Some false.
+Proof. exact call_accepted_iff. Qed.
+Print Assumptions call_accepted_iff_every_pass_fine_and_validator_agrees.
+
+Theorem call_rejected_by_a_pass_iff_some_pass_not_fine : forall c,
+  serve_call c = CRejected false <-> ~ exists vs, Forall2 pass_ok (c_passes c) vs.
+Proof. exact call_rejected_iff. Qed.
+Print Assumptions call_rejected_by_a_pass_iff_some_pass_not_fine.
+
+Theorem validator_decides_only_about_valid_input : forall c,
+  serve_call c = CRejected true -> c_validator c = Some false /\ exists vs, Forall2 pass_ok (c_passes c) vs.
+Proof. exact validator_last_word. Qed.
+Print Assumptions validator_decides_only_about_valid_input.
+
+Theorem call_total : forall c, serve_call c <> CPanic.
+Proof. exact call_no_panic. Qed.
+Print Assumptions call_total.
+
+(* one process, calls of any kinds in any order: call number |pre| returns what it returns alone *)
+Theorem calls_independent : forall pre c post,
+  nth_error (run_calls (pre ++ c :: post)) (List.length pre) = Some (serve_call c).
+Proof. exact calls_independent_lemma. Qed.
+Print Assumptions calls_independent.
+
+Theorem calls_each_sound_and_exact : forall cs i c vs,
+  nth_error cs i = Some c -> nth_error (run_calls cs) i = Some (CAccepted vs) ->
+  Forall2 pass_ok (c_passes c) vs /\ c_validator c <> Some false.
+Proof. exact calls_each_lemma. Qed.
+Print Assumptions calls_each_sound_and_exact.
+
+Theorem calls_total : forall cs i, nth_error (run_calls cs) i <> Some CPanic.
+Proof. exact calls_no_panic_lemma. Qed.
+Print Assumptions calls_total.
+
+(* the same call at position i of one history and position j of another returns the same *)
+Theorem calls_order_irrelevant : forall cs cs' i j c,
+  nth_error cs i = Some c -> nth_error cs' j = Some c ->
+  nth_error (run_calls cs) i = nth_error (run_calls cs') j.
+Proof. exact calls_order_irrelevant_lemma. Qed.
+Print Assumptions calls_order_irrelevant.
+
+(* ---------------------------------------------------------------- non-vacuity (keys) *)
+
+Definition r100 : range := mkRange true (Some (mkDec 1 0)) (Some (mkDec 100 0)) true.   (* [1:100] *)
+Definition ex_dotted : fields :=
+  FCons "page.size" (Some (mkOpts true None None (Some r100) [] false)) (TPrim (KInt W0))
+ (FCons "s" None (TStruct (FCons "lim.max" (Some (mkOpts false None None (Some r100) [] false)) (TPrim (KInt W0)) FNil)) FNil).
+
+(* the two meanings of one key text differ *)
+Example ex_two_meanings :
+  (* json: the nested member, the literal entry is not looked at *)
+  unmarshalK kc_json ex_dotted (Some (JObj [("page", JObj [("size", JNum "10")]); ("page.size", JNum "1000");
+                                            ("s", JObj [("lim", JObj [("max", JNum "7")])])]))
+    = Ok (VStruct [VInt 10; VStruct [VInt 7]])
+  /\ unmarshalK kc_json ex_dotted (Some (JObj [("page", JObj [("size", JNum "1000")]);
+                                               ("s", JObj [("lim", JObj [("max", JNum "7")])])])) = Err ERange
+  (* a further segment missing in the nested object is taken from an enclosing one: max sits in s, not in lim *)
+  /\ unmarshalK kc_json ex_dotted (Some (JObj [("s", JObj [("lim", JObj []); ("max", JNum "8")])]))
+    = Ok (VStruct [VInt 0; VStruct [VInt 8]])
+  (* ... even from the object of the enclosing struct field *)
+  /\ unmarshalK kc_json ex_dotted (Some (JObj [("s", JObj [("lim", JObj [])]); ("max", JNum "1000")])) = Err ERange
+  (* form: the parameter of that name; the range is enforced on it *)
+  /\ unmarshalK kc_form (FCons "page.size" (Some (mkOpts true None None (Some r100) [] false)) (TPrim (KInt W0)) FNil)
+                 (Some (JObj [("page.size", JArr [JStr "1000"])])) = Err ERange
+  /\ unmarshalK kc_form (FCons "page.size" (Some (mkOpts true None None (Some r100) [] false)) (TPrim (KInt W0)) FNil)
+                 (Some (JObj [("page.size", JArr [JStr "10"])])) = Ok (VStruct [VInt 10])
+  /\ fields_okK ex_dotted = true.
+Proof. vm_compute. repeat split. Qed.
+
+(* the hypotheses of the any-depth theorems are satisfiable: lim.max of the struct under s *)
+Example ex_reach :
+  let ob := [("s", JObj [("lim", JObj [("max", JNum "7")])])] in
+  reach kc_json [] ex_dotted ob [ob] (FCons "lim.max" (Some (mkOpts false None None (Some r100) [] false)) (TPrim (KInt W0)) FNil)
+        [("lim", JObj [("max", JNum "7")])].
+Proof.
+  intro ob.
+  eapply (reach_field kc_json [] ex_dotted ob "s" None _ (JObj [("lim", JObj [("max", JNum "7")])])).
+  - right. left. repeat split.
+  - reflexivity.
+  - reflexivity.
+  - apply in_struct.
+  - apply reach_here.
+Qed.
+
+(* httpx.Parse: four passes over one struct, then the validator *)
+Definition ex_parse (size : string) (validator : option bool) : call :=
+  mkCall [mkPass kc_path (FCons "id" None (TPrim (KUint W32)) FNil) (Some (JObj [("id", JStr "7")]));
+          mkPass kc_form (FCons "q" (Some (mkOpts true None (Some "x") None ["x"; "y"] false)) (TPrim KStr) FNil) (Some (JObj []));
+          mkPass kc_header (FCons "X-Trace" (Some (mkOpts true None None None [] false)) (TPrim KStr) FNil)
+                 (Some (JObj [("X-Trace", JStr "t1")]));
+          mkPass kc_json (FCons "page.size" (Some (mkOpts true None None (Some r100) [] false)) (TPrim (KInt W0)) FNil)
+                 (Some (JObj [("page", JObj [("size", JNum size)])]))]
+         validator.
+
+Example ex_parse_cases :
+  serve_call (ex_parse "10" None) = CAccepted [VStruct [VInt 7]; VStruct [VStr "x"]; VStruct [VStr "t1"]; VStruct [VInt 10]]
+  /\ serve_call (ex_parse "1000" (Some true)) = CRejected false
+  /\ serve_call (ex_parse "10" (Some false)) = CRejected true
+  /\ run_calls [ex_parse "1000" None; ex_parse "10" (Some true)] =
+     [CRejected false; CAccepted [VStruct [VInt 7]; VStruct [VStr "x"]; VStruct [VStr "t1"]; VStruct [VInt 10]]].
+Proof. vm_compute. repeat split. Qed.
